@@ -205,6 +205,29 @@ func registerIntrinsics(P *Program) {
 		}
 		return m.constString(fmt.Sprintf(f, goArgs...))
 	}
+	I["fmt.Sprint"] = func(m *Machine, fn *ssa.Function, args []Value) Value {
+		va := args[0].(SliceVal)
+		anyT := types.NewInterfaceType(nil, nil)
+		var goArgs []interface{}
+		for i := int64(0); i < va.Len; i++ {
+			iv := m.Load(anyT, Ptr{ID: va.P.ID, Off: va.P.Off + 16*i}).(IfaceVal)
+			goArgs = append(goArgs, m.toNative(iv))
+		}
+		return m.constString(fmt.Sprint(goArgs...))
+	}
+	I["errors.Is"] = func(m *Machine, fn *ssa.Function, args []Value) Value {
+		errT := types.Universe.Lookup("error").Type()
+		a, b := args[0].(IfaceVal), args[1].(IfaceVal)
+		if a.T == nil || b.T == nil {
+			return m.st.Bool(a.T == nil && b.T == nil)
+		}
+		if types.Identical(a.T, b.T) && types.Comparable(a.T) {
+			return m.eqValues(errT, a, b)
+		}
+		return m.st.False
+	}
+	I["runtime.KeepAlive"] = func(m *Machine, fn *ssa.Function, args []Value) Value { return nil }
+	I["runtime.GC"] = func(m *Machine, fn *ssa.Function, args []Value) Value { return nil }
 	I["fmt.Println"] = func(m *Machine, fn *ssa.Function, args []Value) Value {
 		return TupleVal{m.st.Const(64, 0), IfaceVal{}}
 	}
@@ -217,7 +240,14 @@ func registerIntrinsics(P *Program) {
 	I["strconv.rangeError"] = numErr
 	I["strconv.baseError"] = numErr
 	I["strconv.bitSizeError"] = numErr
-	I["internal/stringslite.Clone"] = func(m *Machine, fn *ssa.Function, args []Value) Value { return args[0] }
+	I["internal/stringslite.Clone"] = func(m *Machine, fn *ssa.Function, args []Value) Value {
+		// a fresh copy (Clone's whole point): the result must not alias its argument
+		sv := args[0].(StringVal)
+		if sv.Len == 0 {
+			return StringVal{}
+		}
+		return StringVal{P: m.newBytes(m.bytesOf(sv.P, sv.Len), "strings.Clone"), Len: sv.Len}
+	}
 	I["strings.Clone"] = I["internal/stringslite.Clone"]
 
 	I["internal/bytealg.IndexByteString"] = func(m *Machine, fn *ssa.Function, args []Value) Value {
